@@ -8,7 +8,7 @@
    PARTIAL: completeness on D and "a well-formed string denotes the position it spells" are checked by the
    correspondence run (every pool FEN accepted in both notations; fields compared with an independent reading). *)
 From Coq Require Import NArith ZArith List Bool.
-From Rawr Require Import Consts Bits Magic Position MoveGen MakeMove Fen FenFacts ParityFacts.
+From Rawr Require Import Consts Bits Magic Position MoveGen MakeMove Fen FenFacts ParityFacts FenRound FenCastle.
 Local Open Scope N_scope.
 
 Theorem C07_parse_validated : forall mode frc s q,
@@ -47,6 +47,20 @@ Proof. exact parse_consistent. Qed.
 Example C07_example : (exists q, set_fen true false STARTPOS_STR = Some q) /\ (exists q, set_fen false false STARTPOS_STR = Some q).
 Proof. split; eexists; vm_compute; reflexivity. Qed.
 
+
+(* ---- completeness, in the form the model can carry: the FEN the engine itself prints for a valid position (every subset of
+   castling rights, standard or Chess960 files, either side to move; castle files of rights not held at their defaults) is
+   accepted by the parser in both arithmetic modes and yields that position (FenCastle.v); for positions reached by play that
+   carry the file of a lost right, it is accepted and yields the position with those dead files reset.  Acceptance of every
+   canonical X-FEN of a position of D written by an independent printer is decided by the correspondence run. *)
+Theorem C07_printed_fen_is_accepted : forall mode p, RTC p -> exists s, get_fen p = Some s /\ set_fen mode (is_frc p) s = Some p.
+Proof. exact fen_roundtrip_rights. Qed.
+Theorem C07_printed_fen_of_a_reached_position_is_accepted : forall mode p, RTW p ->
+  exists s q, get_fen p = Some s /\ set_fen mode (is_frc p) s = Some q.
+Proof. intros mode p H. destruct (fen_roundtrip_modulo_dead_files mode p H) as (s & H1 & H2). exists s, (norm_files p). split; assumption. Qed.
+
 Print Assumptions C07_parse_validated.
 Print Assumptions C07_validate_sound.
 Print Assumptions C07_parse_consistent.
+Print Assumptions C07_printed_fen_is_accepted.
+Print Assumptions C07_printed_fen_of_a_reached_position_is_accepted.
